@@ -724,6 +724,67 @@ pub mod verif_hooks {
     {
         super::make_skeleton(ds)
     }
+
+    pub fn network_edges(
+        ds: &PartialDSet,
+        d: usize,
+        edge_mode: bool,
+        elm_to_index: Vec<usize>,
+        edges: Vec<(usize, usize)>,
+        source: usize,
+        sink: usize
+    )
+        -> Vec<(usize, usize)>
+    {
+        super::network_edges(ds, d, edge_mode, elm_to_index, edges, source, sink)
+    }
+
+    pub fn network_cut(ds: &PartialDSet, d: usize, edge_mode: bool)
+        -> Option<Vec<(usize, usize)>>
+    {
+        super::network_cut(ds, d, edge_mode)
+    }
+
+    pub fn cut_pairs_in_order(
+        ds: &PartialDSet, start: usize, marked: Vec<usize>, special: Vec<usize>
+    )
+        -> Vec<(usize, usize)>
+    {
+        super::cut_pairs_in_order(
+            ds,
+            start,
+            marked.into_iter().collect(),
+            special.into_iter().collect()
+        )
+    }
+
+    pub fn cut_with_insides(
+        cut_vertices: Vec<usize>,
+        inside_vertices: Vec<usize>,
+        reps: Vec<usize>,
+        ds: &PartialDSet,
+        d: usize
+    )
+        -> Vec<usize>
+    {
+        super::cut_with_insides(
+            VertexCut { cut_vertices, inside_vertices }, reps, ds, d
+        )
+    }
+
+    pub fn make_key(ds: &PartialDSet, d: usize, ordered: &Vec<(usize, usize)>)
+        -> (isize, usize, usize)
+    {
+        super::make_key(ds, d, ordered)
+    }
+
+    pub fn split_and_glue_attempt(
+        ds: &PartialDSet, glue_chamber: usize, ordered: Vec<(usize, usize)>
+    )
+        -> Option<Option<PartialDSet>>
+    {
+        unwrap_ds(super::split_and_glue_attempt(ds, glue_chamber, ordered))
+    }
 }
 
 
